@@ -186,8 +186,55 @@ func checkC06(c *core.Ctx) {
 			}
 		}
 	}
+	// long dimensions: element-moving operations beyond size 3
+	for _, s := range longShapes(c.Thorough()) {
+		s := s
+		c.Case(fmt.Sprintf("long/%v", s), true, func() core.Verdict {
+			x := enum.Labels(s, 0)
+			rx := rt.Make(x, false)
+			if ok, msg := core.ExactEq(rt.Read(rx), x); !ok {
+				return core.Fail("At over %v: %s", s, msg)
+			}
+			// a window in the middle of every dimension, patched back
+			ix := make([]ref.Range, len(s))
+			for i, d := range s {
+				ix[i] = ref.Range{From: d / 3, To: d/3 + (d+1)/2}
+			}
+			if v := applyBoth(ref.Op{K: "Slice", Index: ix}, []*ref.T{x}, true); !v.OK {
+				return v
+			}
+			sub, _ := ref.Eval(ref.Op{K: "Slice", Index: ix}, []*ref.T{x})
+			p := enum.Labels(sub.Shape, 5000)
+			if v := applyBoth(ref.Op{K: "Patch", Index: ix}, []*ref.T{x, p}, true); !v.OK {
+				return v
+			}
+			for d := range s {
+				if v := applyBoth(ref.Op{K: "Concat", Dim: d}, []*ref.T{x, enum.Labels(s, 9000)}, true); !v.OK {
+					return v
+				}
+				if v := applyBoth(ref.Op{K: "Flatten", Dim: d}, []*ref.T{x}, true); !v.OK {
+					return v
+				}
+				if v := applyBoth(ref.Op{K: "UnSqueeze", Dim: d}, []*ref.T{x}, true); !v.OK {
+					return v
+				}
+			}
+			if v := applyBoth(ref.Op{K: "Reshape", Shape: []int{ref.Size(s)}}, []*ref.T{x}, true); !v.OK {
+				return v
+			}
+			if v := applyBoth(ref.Op{K: "Broadcast", Shape: append([]int{2}, s...)}, []*ref.T{x}, true); !v.OK {
+				return v
+			}
+			if len(s) >= 2 {
+				if v := applyBoth(ref.Op{K: "Transpose"}, []*ref.T{x}, true); !v.OK {
+					return v
+				}
+			}
+			return core.Pass()
+		})
+	}
 	// Eye
-	for n := 1; n <= 5; n++ {
+	for _, n := range []int{1, 2, 3, 4, 5, 17, 40} {
 		n := n
 		c.Case(fmt.Sprintf("eye/%d", n), n > 1, func() core.Verdict {
 			e, err := tensor.Eye(n, rt.Conf(false))
